@@ -428,6 +428,8 @@ pub struct Report {
     pub counters: BTreeMap<String, u64>,
     pub distinct: HashSet<u64>,
     pub distinct_overflow: u64,
+    /// distinct abstract states of the system under test seen by the monitors (evidence)
+    pub states: HashSet<u64>,
     pub samples: Vec<J>,
     pub violations: Vec<Violation>,
     pub violations_total: u64,
@@ -446,6 +448,7 @@ impl Report {
             counters: BTreeMap::new(),
             distinct: HashSet::new(),
             distinct_overflow: 0,
+            states: HashSet::new(),
             samples: Vec::new(),
             violations: Vec::new(),
             violations_total: 0,
@@ -474,6 +477,11 @@ impl Report {
             self.distinct.insert(fp);
         } else {
             self.distinct_overflow += 1;
+        }
+    }
+    pub fn state(&mut self, sig: u64) {
+        if self.states.len() < MAX_DISTINCT {
+            self.states.insert(sig);
         }
     }
     pub fn want_sample(&self) -> bool {
@@ -536,6 +544,13 @@ impl Report {
             fp.extend_from_slice(&h.to_le_bytes());
         }
         let _ = std::fs::write(format!("{}.fp", out), fp);
+        if !self.states.is_empty() {
+            let mut st: Vec<u8> = Vec::with_capacity(self.states.len() * 8);
+            for h in &self.states {
+                st.extend_from_slice(&h.to_le_bytes());
+            }
+            let _ = std::fs::write(format!("{}.st", out), st);
+        }
         let tmp = format!("{}.tmp", out);
         std::fs::write(&tmp, self.to_json().to_string()).expect("write report");
         std::fs::rename(&tmp, out).expect("rename report");
